@@ -254,7 +254,7 @@ def name_pool(n_witnesses):
         c = chr(code)
         if c in '"\n\r':
             continue
-        pool += ['x%sy' % c, c if c.strip() else 'a' + c + 'b', '%sq' % c if c.strip() else 'q' + c + c + 'q']
+        pool += ['x%sy' % c, c, '%sq' % c, 'q%s' % c]
     # a backslash in front of every character: nothing in a name is an escape sequence
     for code in range(33, 127):
         if chr(code) != '"':
@@ -264,9 +264,10 @@ def name_pool(n_witnesses):
     for sp in ('{', '}', '%', chr(92), '#', "'", ' ', 'end', '[', ':'):
         ws, _ = rx2z3.witnesses(z3.And(noq, z3.Length(s) <= 6, z3.Length(s) >= 2, z3.Contains(s, z3.StringVal(sp))), s, n_witnesses)
         pool += [rx2z3.decode(w) for w in ws]
-    # leading/trailing blanks are not preserved by lifxlan labels in practice and a name ending in a backslash runs into the known
+    # names beginning or ending with blanks are names like any other; a name ending in a backslash runs into the known
     # lexer finding of C16 only when another quote follows on the line, which the snapshot never produces
-    return [n for n in dict.fromkeys(pool) if n == n.strip() and n]
+    pool += [' lead', 'trail ', '  both  ', chr(9) + 'tab', ' ']
+    return [n for n in dict.fromkeys(pool) if n]
 
 
 def dispatch(args):
